@@ -1,0 +1,25 @@
+//go:build !verif
+// +build !verif
+
+/*
+ * Copyright 2022 CloudWeGo Authors
+ *
+ * Licensed under the Apache License, Version 2.0 (the "License");
+ * you may not use this file except in compliance with the License.
+ * You may obtain a copy of the License at
+ *
+ *     http://www.apache.org/licenses/LICENSE-2.0
+ *
+ * Unless required by applicable law or agreed to in writing, software
+ * distributed under the License is distributed on an "AS IS" BASIS,
+ * WITHOUT WARRANTIES OR CONDITIONS OF ANY KIND, either express or implied.
+ * See the License for the specific language governing permissions and
+ * limitations under the License.
+ */
+
+package http1
+
+// verifPoint is a no-op without the verif build tag (verification hook H2).
+func verifPoint(site string, c *HostClient, w *wantConn, cc *clientConn, n int, flag bool) {}
+
+func (c *HostClient) verifWaitLen() int { return 0 }
